@@ -85,3 +85,46 @@ def add_obligations(res, tree: Tree, rule: str, select: Callable[[ClassInfo], bo
                     f"{axis_ok} consistent" if not axis_bad else "; ".join(f"self.{a_} = {e} (line {ln})" for a_, e, ln in axis_bad))
             n += 1
     return n
+
+
+def class_state_writes(res, tree: Tree, rule: str, select: Callable[[ClassInfo], bool]) -> int:
+    """W3: constructors (and every other method of the selected classes) never write class-level or module-level
+    state: `<Class>.attr = ...`, `type(self).attr = ...`, `self.__class__.attr = ...`, `cls.attr = ...` outside
+    classmethods used as alternative constructors, `global` rebinding, or mutation of a class-level container.
+    Such a write couples separately constructed instances (two make(id) calls would no longer be equivalent)."""
+    n = 0
+    for q, ci in sorted(tree.classes.items()):
+        if not select(ci):
+            continue
+        bad = []
+        scanned = 0
+        for name, f in ci.methods.items():
+            scanned += 1
+            for st in ast.walk(f.node):
+                targets = []
+                if isinstance(st, ast.Assign):
+                    targets = st.targets
+                elif isinstance(st, (ast.AugAssign, ast.AnnAssign)):
+                    targets = [st.target]
+                elif isinstance(st, ast.Global):
+                    bad.append((name, "global " + ", ".join(st.names), st.lineno))
+                for t in targets:
+                    base = t
+                    while isinstance(base, (ast.Attribute, ast.Subscript)):
+                        inner = base.value
+                        if isinstance(base, ast.Attribute) or isinstance(base, ast.Subscript):
+                            if isinstance(inner, ast.Name) and isinstance(t, (ast.Attribute, ast.Subscript)):
+                                owner = inner.id
+                                q2 = tree.resolve_name(ci.module, owner)
+                                is_cls = owner == ci.name or (q2 in tree.classes) or owner == "cls"
+                                if is_cls and owner != "self":
+                                    bad.append((name, ast.unparse(t)[:60], st.lineno))
+                            if isinstance(inner, ast.Call) and isinstance(inner.func, ast.Name) and inner.func.id == "type":
+                                bad.append((name, ast.unparse(t)[:60], st.lineno))
+                            if isinstance(inner, ast.Attribute) and inner.attr == "__class__":
+                                bad.append((name, ast.unparse(t)[:60], st.lineno))
+                        base = inner
+        res.add(rule, ci.loc(), short(ci.qual), "no method writes class-level or module-level state (instances stay independent)", not bad,
+                f"{scanned} methods scanned" if not bad else "; ".join(f"{m}: {w} (line {ln})" for m, w, ln in bad[:4]))
+        n += 1
+    return n
